@@ -143,6 +143,9 @@ pub struct Ghost {
     /// LST handed to the IBC module by stakes, per native-chain recipient; and what was acknowledged there
     pub lst_sent: BTreeMap<String, u128>,
     pub lst_acked: BTreeMap<String, u128>,
+    /// activity bounds of the menus are relative to what the scripted seed had already used
+    pub seed_batches: u64,
+    pub seed_seq: u64,
 }
 
 #[derive(Clone, Debug, Hash, PartialEq, Eq)]
